@@ -144,8 +144,11 @@ def mechanical(ctx, P, s, N, fn, graph, operand, extra):
             n = len(recv[2][0][1])
             return (n >= 1), "choose() on an array literal with %d elements" % n
         # next() of an iterator over X with len(X) == 1
-        if recv[0] == "call" and recv[1] == "Iterator::next" and recv[2][0][0] == "call" and recv[2][0][1].endswith("::iter"):
-            X = show(recv[2][0][2][0])
+        it0 = recv[2][0] if recv[0] == "call" and recv[1] == "Iterator::next" and recv[2] else None
+        while it0 is not None and it0[0] == "mut":
+            it0 = it0[2]
+        if it0 is not None and it0[0] == "call" and it0[1].endswith("::iter"):
+            X = show(it0[2][0])
             ls = GD.len_set(conds, X)
             if ls and 0 not in ls:
                 return True, "next() on an iterator over `%s`, whose length is constrained to %s by the dominating guards" % (X, sorted(ls))
